@@ -52,6 +52,7 @@ type schedState struct {
 }
 
 func (w *Worker) schedStart(level, preempt, timers int) {
+	w.usedSched = true
 	g0 := &gor{id: 0, wake: make(chan struct{}), started: true}
 	w.sched = &schedState{gs: []*gor{g0}, cur: g0, ack: make(chan struct{}), level: level, preempt: preempt, timers: timers,
 		locked: map[*Value]bool{}, wg: map[*Value]int64{}}
